@@ -220,7 +220,8 @@ class IntermediateCodeGen(AbstractCodeGen):
             baseSymType, baseSymSubtype = self.getBaseType(*symType)
             if isinstance(baseSymSubtype, list):
                 if isinstance(symSubtype, list):
-                    symSubtype += baseSymSubtype
+                    # must not extend the symbol table entry in place
+                    symSubtype = symSubtype + baseSymSubtype
                 else:
                     symSubtype = baseSymSubtype
 
